@@ -28,7 +28,6 @@ from harness.tlc import run_tlc, write_cfg, SPEC
 SD = SPEC / "pdict"
 DESIGN_REF = "DESIGN.md section 7 (C43), section 8"
 TKEYS = ["a", "b", "c"]          # keys of PersistentDictTrace.cfg
-ALL_OPS = ["set", "del", "pop", "popitem", "update", "setdefault", "clear", "mutate", "flush", "reload", "reopen", "crash"]
 NFAM = 4
 
 
@@ -334,13 +333,13 @@ def run(ctx):
     if ctx.quick:      # (keys, NV, alphabet, MaxOps)
         gens = [
             (["a"], 2, ["set", "del", "mutate", "flush", "reload", "reopen", "crash"], 4),
-            (["a", "b"], 1, ["update", "pop", "popitem", "clear", "setdefault", "mutate", "reload", "reopen", "crash"], 3),
+            (["a", "b"], 2, ["update", "pop", "popitem", "clear", "setdefault", "mutate", "reload", "reopen", "crash"], 3),
         ]
     else:
         gens = [
             (["a"], 2, ["set", "del", "mutate", "flush", "reload", "reopen", "crash"], 5),
             (["a", "b"], 2, ["set", "pop", "popitem", "clear", "setdefault", "reopen", "crash"], 4),
-            (["a", "b"], 1, ["update", "mutate", "reload", "popitem", "flush", "reopen", "crash"], 5),
+            (["a", "b"], 2, ["update", "mutate", "reload", "popitem", "flush", "reopen", "crash"], 4),
         ]
     jobs = {}
     with ThreadPoolExecutor(4) as ex:
@@ -457,8 +456,15 @@ def run(ctx):
         kf.setdefault(int(m.group(1)) - 1, set()).add(int(m.group(2)) - 2)      # event index of the reopen (0-based)
     inv_bad = {}
     if tres.violated and tres.kind in ("invariant", "action"):
-        for _, st in tres.trace:
-            if "tid" in st and "l" in st and st.get("verdict") is not None:
+        # with -continue TLC prints one counterexample per violation: the violating state is the last of each
+        runs = []
+        for label, st in tres.trace:
+            if label.startswith("Initial predicate") or not runs:
+                runs.append([])
+            runs[-1].append(st)
+        for states in runs:
+            st = states[-1]
+            if "tid" in st and "l" in st:
                 inv_bad.setdefault(st["tid"] - 1, st["l"] - 2)
     elif tres.violated and tres.kind != "postcondition":
         ctx.machinery(f"PersistentDictTrace failed: {tres.violated}\n{tres.stdout[-1500:]}")
